@@ -43,6 +43,7 @@ def draw_case(data, tier):
     if cfg["cls"] == "UNet":
         cfg["num_downsamples"] = 1
         cfg["N"] = 4 if cfg["d"] == 2 else 2
+        cfg.pop("shape", None)
     n = data.draw(st.sampled_from([4, 6, 8]), label="n_samples")
     bs = data.draw(st.sampled_from([b for b in (1, 2, 3, 4) if n % b == 0]), label="batch_size")
     cfg.update({
@@ -73,11 +74,12 @@ def run_case(cfg):
         return result(None, False, key, labels + ["no_reachable_output"])
     model0 = netgen.perturb(netgen.build_model(cfg), cfg["pseed"], 0.2)
     banks0 = netgen.bank_leaves(model0)
-    n, N = cfg["n_samples"], cfg["N"]
+    n = cfg["n_samples"]
+    shp = netgen.model_shape(cfg)
     rng = np.random.default_rng(cfg["xseed"])
     tor = (bool(cfg["torus"]),) * d
-    X = geom.MultiImage({t: jnp.asarray(rng.standard_normal((n, c) + (N,) * d + (d,) * t[0]), dtype=jnp.float32) for t, c in gen.sig_tuple(cfg["in_sig"])}, d, tor)
-    Y = geom.MultiImage({t: jnp.asarray(rng.standard_normal((n, c) + (N,) * d + (d,) * t[0]), dtype=jnp.float32) for t, c in reach}, d, tor)
+    X = geom.MultiImage({t: jnp.asarray(rng.standard_normal((n, c) + shp + (d,) * t[0]), dtype=jnp.float32) for t, c in gen.sig_tuple(cfg["in_sig"])}, d, tor)
+    Y = geom.MultiImage({t: jnp.asarray(rng.standard_normal((n, c) + shp + (d,) * t[0]), dtype=jnp.float32) for t, c in reach}, d, tor)
     opt = {"sgd": lambda: optax.sgd(cfg["lr"]), "adam": lambda: optax.adam(cfg["lr"]), "adamw": lambda: optax.adamw(cfg["lr"], weight_decay=cfg["wd"])}[cfg["opt"]]()
     loss_fn = _make_loss(cfg["loss"])
     dev = [jax.devices()[0]]
